@@ -74,8 +74,9 @@ def gen_cases(ctx):
                "origin": str(rng.choice(ORIGINS, p=[0.5, 0.15, 0.15, 0.1, 0.1]))}
     for i in range(ctx.share(ctx.scale(40, 800))):
         rng = ctx.rng(2, i)
-        yield {"kind": "reject", "seed": int(rng.integers(1 << 31)), "fault": ["n_grains", "n_snapshots", "n_fraction_lists", "n_fraction_lists_short"][i % 4],
-               "where": ["second", "first", "only"][(i // 4) % 3]}
+        j = i * ctx.nshards + ctx.shard   # global index: all 12 combinations occur in every run
+        yield {"kind": "reject", "seed": int(rng.integers(1 << 31)), "fault": ["n_grains", "n_snapshots", "n_fraction_lists", "n_fraction_lists_short"][j % 4],
+               "where": ["second", "first", "only"][(j // 4) % 3]}
     if ctx.shard == 0:
         for combo in ("ol", "en"):
             for k in range(24):
